@@ -25,7 +25,9 @@ CONSTANTS MaxRules, WithFaults, EmitCases
 
 \* "request-raw": the request of a service method declared WITHOUT a response block (it returns a raw HTTP body;
 \* README "Services", property C16's quantifier "methods without response body")
-Containers == {"object", "oneof", "request", "request-raw", "response", "publish", "reqres-request", "reqres-reply", "upsert"}
+\* "request-path": the field is the path parameter of the method (httpPath = "/bar/:f"); scalar-like kinds and enums only
+Containers == {"object", "oneof", "request", "request-raw", "request-path", "response", "publish", "reqres-request", "reqres-reply", "upsert"}
+PathKinds == {"string", "bool", "int32", "int64", "uint32", "uint64", "date", "key", "key-id62", "key-uuid", "key-custom", "enum-ref", "enum-inline"}
 
 \* README "Scalar Types" table + schema.proto Field.type
 Scalars == {"string", "bool", "int32", "int64", "uint32", "uint64", "float32", "float64", "bytes", "timestamp", "date", "decimal",
@@ -81,10 +83,10 @@ Init == phase = "container" /\ container = "" /\ kind = "" /\ card = "" /\ prese
 PickContainer(c) == phase = "container" /\ container' = c /\ phase' = "kind" /\ UNCHANGED <<kind, card, presence, rules, fault>>
 
 \* a oneof's options are objects (README "Oneof": all of the properties must be objects)
-KindsIn(c) == IF c = "oneof" THEN {"object-ref", "object-inline"} ELSE Kinds
+KindsIn(c) == IF c = "oneof" THEN {"object-ref", "object-inline"} ELSE IF c = "request-path" THEN PathKinds ELSE Kinds
 PickKind(k) == phase = "kind" /\ k \in KindsIn(container) /\ kind' = k /\ phase' = "card" /\ UNCHANGED <<container, card, presence, rules, fault>>
 
-CardsIn(c) == IF c = "oneof" THEN {"single"} ELSE Cards
+CardsIn(c) == IF c \in {"oneof", "request-path"} THEN {"single"} ELSE Cards
 PickCard(c) == phase = "card" /\ c \in CardsIn(container) /\ card' = c /\ phase' = "presence" /\ UNCHANGED <<container, kind, presence, rules, fault>>
 
 PresencesIn(c) == IF c = "oneof" THEN {"none"} ELSE Presences
@@ -113,7 +115,7 @@ InjectFault(f) ==
     /\ f \in Faults
     /\ (f = "rule-on-wrong-kind" => kind \in {"timestamp", "any", "key-id62"})
     /\ (f = "integer-without-format" => kind = "int32")
-    /\ (f \in {"method-without-request", "bad-http-method"} => container \in {"request", "request-raw", "response"})
+    /\ (f \in {"method-without-request", "bad-http-method"} => container \in {"request", "request-raw", "request-path", "response"})
     /\ (f = "oneof-scalar-option" => container = "oneof")
     /\ (f = "enum-no-options" => kind = "enum-inline")
     /\ (f \in {"nested-array", "map-of-map"} => kind = "string")
